@@ -58,15 +58,17 @@ def render_stmt(sp, s, idx=0):
     if k == "addcol":
         opt = {"": "", "ref": f" REFERENCES {REF[0]}.{REF[1]} (x)", "dflt": f" DEFAULT {VALUES['v1']}", "uniq": " UNIQUE"}[s["x"]]
         return f"ALTER TABLE {T} ADD {col(sp, s['c'])} int{opt};"
+    # a trailing option word (legal in several dialects) after a SCHEMA-QUALIFIED statement; every third rendering
+    tail = lambda w: (" " + w) if (s["t"][0] and (sp["seed"] + idx) % 3 == 0) else ""  # noqa
     if k == "drop":
-        return f"ALTER TABLE {T} DROP COLUMN {col(sp, s['c'])};"
+        return f"ALTER TABLE {T} DROP COLUMN {col(sp, s['c'])}{tail('CASCADE')};"
     if k == "rename":
-        return f"ALTER TABLE {T} RENAME COLUMN {col(sp, s['c'])} TO {col(sp, (s['x'], 'same'))};"
+        return f"ALTER TABLE {T} RENAME COLUMN {col(sp, s['c'])} TO {col(sp, (s['x'], 'same'))}{tail('CASCADE')};"
     if k == "modify":
         form = MODIFY_FORMS[(sp["seed"] + idx) % len(MODIFY_FORMS)]
         return f"ALTER TABLE {T} " + form.format(c=col(sp, s["c"])) + ";"
     if k == "unique":
-        return f"ALTER TABLE {T} ADD {cn}UNIQUE ({cs});"
+        return f"ALTER TABLE {T} ADD {cn}UNIQUE ({cs}){tail('ENABLE') if cn else ''};"
     if k == "pk":
         return f"ALTER TABLE {T} ADD {cn}PRIMARY KEY ({cs});"
     if k == "default":
@@ -75,7 +77,7 @@ def render_stmt(sp, s, idx=0):
         return f"ALTER TABLE {T} ADD {cn}CHECK {CHECKS[s['x']][0]};"
     if k == "fk":
         refs = ", ".join(("x", "y", "z")[: len(s["cs"])])
-        return f"ALTER TABLE {T} ADD {cn}FOREIGN KEY ({cs}) REFERENCES {REF[0]}.{REF[1]} ({refs});"
+        return f"ALTER TABLE {T} ADD {cn}FOREIGN KEY ({cs}) REFERENCES {REF[0]}.{REF[1]} ({refs}){tail('ENABLE')};"
     if k == "index":
         cols = ", ".join(col(sp, c) + (" " + d if d else "") for c, d in s["cs"])
         u = "UNIQUE " if s["x"] == "unique" else ""
